@@ -127,13 +127,18 @@ def degree_conserved(ctx: Ctx):
             raise AnalysisError(f"DEGREE-CONSERVED: no return of {qname} could be evaluated as a factorised tensor ({label})")
         for node, (got, flist), nfix in outs:
             exp = expected
+            if nfix == "?":
+                res.error(f"DEGREE-CONSERVED: a return of {cfg} sits under a length test the analysis cannot resolve; cannot decide")
+                continue
             if nfix is not None and not isinstance(got, Top):
                 got, exp = subst_n(got, nfix), subst_n(exp, nfix)
             sdeg = got.pop("S", None) if isinstance(got, dict) else None
             got_nos = got
             ok = got_nos == exp
             if isinstance(got_nos, Top) and got_nos.lost:
-                raise AnalysisError(f"DEGREE-CONSERVED: the degree of the object returned by {cfg} could not be computed ({got_nos.why}); cannot decide")
+                # cannot decide THIS function; the other specifications are still decided
+                res.error(f"DEGREE-CONSERVED: the degree of the object returned by {cfg} could not be computed ({got_nos.why}); cannot decide")
+                continue
             res.instance("DEGREE-CONSERVED", f"{cfg}: {src(node)[:60]}", sample={"configuration": label, "degree": fmt(got_nos), "expected": fmt(exp), "ok": ok})
             if not ok:
                 ctx.finding("DEGREE-CONSERVED", f, node, f"`{cfg}` returns an object that represents a tensor of degree {fmt(got_nos)}, but its input represents one of degree {fmt(exp)} (W = weights, G = core, F = a factor, P = a projection, M = the operand; N = number of factors): the transform cannot leave the represented tensor unchanged, some scale is lost or applied twice", construct=f"{cfg}: represented degree {fmt(got_nos)} != {fmt(exp)}")
@@ -159,34 +164,43 @@ SIGN_FUNCS = ["tensorly.cp_tensor.cp_flip_sign"]
 
 
 def sign_nonzero(ctx: Ctx):
-    """every `s = sign(g)` whose value multiplies a stored list element"""
+    """every `s = sign(g)` (in the function or in a helper nested in it) whose value multiplies a
+    stored list element"""
     repo, res = ctx.repo, ctx.res
     n = 0
     for q in SIGN_FUNCS:
         f = repo.func(q)
-        assigns = [s for s in own_scope_nodes(f.node) if isinstance(s, ast.Assign) and len(s.targets) == 1 and isinstance(s.targets[0], ast.Name)]
-        signs = {}
-        for s in assigns:
-            v = s.value
-            if isinstance(v, ast.Call) and call_name(v) == "sign" and v.args:
-                signs.setdefault(s.targets[0].id, []).append(v)
-        for name, defs in signs.items():
-            guarded = False
-            # zero replacement: name = where(name == 0, ..., name)
+        # the function body and the bodies of its nested helpers, each scanned as one scope
+        scopes = [f.node] + [x for x in ast.walk(f.node) if isinstance(x, ast.FunctionDef) and x is not f.node]
+        for scope in scopes:
+            nodes = [x for x in ast.walk(scope) if not any(isinstance(p, ast.FunctionDef) and p is not scope and any(y is x for y in ast.walk(p)) for p in scopes if p is not scope and p is not f.node or False)] if scope is f.node else list(ast.walk(scope))
+            if scope is f.node:
+                inner = [x for s2 in scopes[1:] for x in ast.walk(s2)]
+                inner_ids = {id(x) for x in inner}
+                nodes = [x for x in ast.walk(scope) if id(x) not in inner_ids]
+            assigns = [s for s in nodes if isinstance(s, ast.Assign) and len(s.targets) == 1 and isinstance(s.targets[0], ast.Name)]
             for s in assigns:
                 v = s.value
-                if is_name(s.targets[0], name) and isinstance(v, ast.Call) and call_name(v) == "where" and len(v.args) == 3 and isinstance(v.args[0], ast.Compare) and is_name(v.args[0].left, name) and is_name(v.args[2], name):
-                    guarded = True
-            for d in defs:
-                g = d.args[0]
+                if not (isinstance(v, ast.Call) and call_name(v) == "sign" and v.args):
+                    continue
+                name, d, g = s.targets[0].id, v, v.args[0]
+                # zero replacement: every use of the sign vector sits inside where(name == 0, <replacement>, name)
+                guards = [c for c in nodes if isinstance(c, ast.Call) and call_name(c) == "where" and len(c.args) == 3 and isinstance(c.args[0], ast.Compare) and is_name(c.args[0].left, name) and is_name(c.args[2], name)]
+                guarded_ids = {id(x) for c in guards for x in ast.walk(c)}
+                uses = [x for x in nodes if isinstance(x, ast.Name) and x.id == name and isinstance(x.ctx, ast.Load)]
+                free_uses = [x for x in uses if id(x) not in guarded_ids]
+                reassigned_guard = any(is_name(a.targets[0], name) and any(a.value is c for c in guards) for a in assigns)
+                guarded = bool(guards) and (not free_uses or reassigned_guard)
                 # the values this sign vector multiplies
                 mult = []
-                for s in own_scope_nodes(f.node):
+                for st in nodes:
                     val = None
-                    if isinstance(s, ast.Assign):
-                        val = s.value
-                    elif isinstance(s, ast.AugAssign) and isinstance(s.op, ast.Mult):
-                        val = ast.BinOp(left=s.target, op=ast.Mult(), right=s.value)
+                    if isinstance(st, ast.Assign):
+                        val = st.value
+                    elif isinstance(st, ast.AugAssign) and isinstance(st.op, ast.Mult):
+                        val = ast.BinOp(left=st.target, op=ast.Mult(), right=st.value)
+                    elif isinstance(st, ast.Return):
+                        val = st.value
                     if val is None:
                         continue
                     for b in ast.walk(val):
@@ -195,10 +209,10 @@ def sign_nonzero(ctx: Ctx):
                                 base = side
                                 while isinstance(base, ast.Subscript):
                                     base = base.value
-                                if is_name(base, name):
+                                if is_name(base, name) and id(base) not in guarded_ids:
                                     mult.append(other)
-                # abs(g) == g * sign(g): g itself is one of the multiplied values
-                self_paired = any(src(m) == src(g) for m in mult) or any(isinstance(s.value, ast.Call) and call_name(s.value) == "abs" and s.value.args and src(s.value.args[0]) == src(g) for s in assigns)
+                # abs(g) == g * sign(g): g itself is one of the multiplied values (then the component is already 0)
+                self_paired = any(src(m) == src(g) for m in mult) or any(isinstance(c, ast.Call) and call_name(c) == "abs" and c.args and src(c.args[0]) == src(g) for c in nodes)
                 ok = guarded or self_paired
                 n += 1
                 res.instance("SIGN-NONZERO", f"{f.qname}: {name} = {src(d)[:60]}", sample={"line": d.lineno, "multiplies": [src(m)[:40] for m in mult], "zero_replaced": guarded, "paired_with_its_argument": self_paired, "ok": ok})
